@@ -93,6 +93,17 @@ impl TypeSpace {
             }
         };
 
+        // A crate rename comes from the settings rather than from the
+        // schema; make sure we still have a valid path once it's applied.
+        if syn::parse_str::<syn::TypePath>(&format!("::{path}")).is_err() {
+            warn!(
+                "{} does not name a valid path for crate {}",
+                serde_json::to_string_pretty(&schema).unwrap(),
+                crate_name,
+            );
+            return None;
+        }
+
         // Convert and collect type parameters.
         let param_ids = parameters
             .iter()
